@@ -73,7 +73,7 @@ def refuted(units, repo):
 bad = 0
 base_cache = {}
 for pf in sorted(glob.glob(os.path.join(HERE, "selftest", "harmless", "*.diff"))):
-    if sys.argv[1:] and not any(a in os.path.basename(pf) for a in sys.argv[1:]):
+    if sys.argv[1:] and not any(a in os.path.basename(pf)[len("refactor_"):] for a in sys.argv[1:]):
         continue
     for k, (f, head, hunk) in enumerate(split(pf)):
         tmp = tempfile.mkdtemp(prefix="hunk_")
